@@ -199,13 +199,34 @@ type ver struct {
 	kinds  map[string]int
 	types  map[string]int // type identifier -> base id (declared in this version)
 	sparse int            // corpus: crash points only every sparse-th byte in the quick tier (slow packages)
+	stem   string         // the user's files are <stem>.go and <stem>_test.go ("" = a): "main", "types" sort BEHIND derived.gen.go
+	pname  string         // name in the package clause ("" = p)
 }
 
 // inPackage: the same version with another package name.
 func (v ver) inPackage(name string) ver {
-	v.src = strings.Replace(v.src, "package p\n", "package "+name+"\n", 1)
-	v.test = strings.Replace(v.test, "package p\n", "package "+name+"\n", 1)
+	v.pname = name
 	return v
+}
+
+// named: the same version in files <stem>.go / <stem>_test.go with package clause pname.
+func (v ver) named(stem, pname string) ver {
+	v.stem, v.pname = stem, pname
+	return v
+}
+
+// text: file names and texts of the user's files as they are written to disk.
+func (v ver) text() (fname, src, tname, test string) {
+	stem := v.stem
+	if stem == "" {
+		stem = "a"
+	}
+	src, test = v.src, v.test
+	if v.pname != "" && v.pname != "p" {
+		src = strings.Replace(src, "package p\n", "package "+v.pname+"\n", 1)
+		test = strings.Replace(test, "package p\n", "package "+v.pname+"\n", 1)
+	}
+	return stem + ".go", src, stem + "_test.go", test
 }
 
 func (v *version) render() ver {
@@ -778,25 +799,33 @@ func runIn(cfg hx.Config, dir string, v ver, old []byte, oldExists bool) outcome
 
 // writeSrc (re)writes the user's files of the package: a.go and, when the version has one, a_test.go.
 func writeSrc(pdir string, v ver) {
-	os.WriteFile(filepath.Join(pdir, "a.go"), []byte(v.src), 0o644)
-	if v.test != "" {
-		os.WriteFile(filepath.Join(pdir, "a_test.go"), []byte(v.test), 0o644)
-	} else {
-		os.Remove(filepath.Join(pdir, "a_test.go"))
+	fname, src, tname, test := v.text()
+	// scratch directories are reused by versions with other file names: no other source file may stay
+	if ents, err := os.ReadDir(pdir); err == nil {
+		for _, e := range ents {
+			if n := e.Name(); strings.HasSuffix(n, ".go") && n != "derived.gen.go" && n != fname && !(n == tname && test != "") {
+				os.Remove(filepath.Join(pdir, n))
+			}
+		}
+	}
+	os.WriteFile(filepath.Join(pdir, fname), []byte(src), 0o644)
+	if test != "" {
+		os.WriteFile(filepath.Join(pdir, tname), []byte(test), 0o644)
 	}
 }
 
 // srcUnchanged: the user's files still hold the text of the version (-autoname/-dedup rewrite them).
 func srcUnchanged(pdir string, v ver) bool {
-	a, err := os.ReadFile(filepath.Join(pdir, "a.go"))
-	if err != nil || string(a) != v.src {
+	fname, src, tname, test := v.text()
+	a, err := os.ReadFile(filepath.Join(pdir, fname))
+	if err != nil || string(a) != src {
 		return false
 	}
-	t, err := os.ReadFile(filepath.Join(pdir, "a_test.go"))
-	if v.test == "" {
+	t, err := os.ReadFile(filepath.Join(pdir, tname))
+	if test == "" {
 		return err != nil
 	}
-	return err == nil && string(t) == v.test
+	return err == nil && string(t) == test
 }
 
 func runInMode(cfg hx.Config, dir string, mode int, v ver, old []byte, oldExists bool) outcome {
@@ -809,10 +838,12 @@ func runInModeFlags(cfg hx.Config, dir string, mode int, flags []string, v ver, 
 	// scratch directories are reused with other modes: exactly one package may exist
 	if mode == 0 {
 		os.RemoveAll(filepath.Join(dir, "inner"))
-	} else {
-		os.Remove(filepath.Join(dir, "a.go"))
-		os.Remove(filepath.Join(dir, "a_test.go"))
-		os.Remove(filepath.Join(dir, "derived.gen.go"))
+	} else if ents, err := os.ReadDir(dir); err == nil {
+		for _, e := range ents {
+			if strings.HasSuffix(e.Name(), ".go") {
+				os.Remove(filepath.Join(dir, e.Name()))
+			}
+		}
 	}
 	gen := filepath.Join(pkgDir(dir, mode), "derived.gen.go")
 	var g hx.RunResult
@@ -857,9 +888,10 @@ func (c *collector) add(line string) {
 }
 
 func files(v ver, old []byte, oldExists bool) map[string]string {
-	m := map[string]string{"a.go": v.src, "go.mod": "module p\n\ngo 1.24\n"}
-	if v.test != "" {
-		m["a_test.go"] = v.test
+	fname, src, tname, test := v.text()
+	m := map[string]string{fname: src, "go.mod": "module p\n\ngo 1.24\n"}
+	if test != "" {
+		m[tname] = test
 	}
 	if oldExists {
 		m["derived.gen.go (before the run)"] = string(old)
@@ -880,6 +912,9 @@ func ctxOf(v ver, flags []string) string {
 	}
 	if v.test != "" {
 		parts = append(parts, "testfile")
+	}
+	if v.stem != "" && v.stem != "a" {
+		parts = append(parts, "srcbehind") // the user's files sort behind derived.gen.go
 	}
 	return strings.Join(parts, "-")
 }
@@ -1023,6 +1058,30 @@ func Run(cfg hx.Config) (*hx.Meta, error) {
 			h.vers = append(h.vers, v.render())
 			h.desc = append(h.desc, d)
 		}
+		// How the user's files and the package are called must not matter.  In two of three histories the files
+		// are main.go / types.go (+ _test.go), which sort BEHIND derived.gen.go: go/build takes the package name
+		// of a directory from its first file, which is then the old derived.gen.go.  In two of three histories the
+		// package has a name of several letters (a file cut off inside the name in its package clause is a valid
+		// Go file of ANOTHER package), and in every third the package is renamed half way (tool -> kit): the old
+		// derived.gen.go then belongs to another package than the sources.
+		stem := []string{"a", "main", "types"}[(i/2)%3]
+		for si := range h.vers {
+			pname := "p"
+			switch i % 3 {
+			case 1:
+				pname = "tool"
+			case 2:
+				pname = "tool"
+				if si >= (len(h.vers)+1)/2 {
+					pname = "kit"
+				}
+				if si == (len(h.vers)+1)/2 {
+					h.desc[si] += "+rename-package"
+				}
+			}
+			h.vers[si] = h.vers[si].named(stem, pname)
+		}
+		meta.Count("source-files/" + stem + ".go")
 		hists = append(hists, h)
 		meta.Count("history/generated")
 	}
@@ -1239,6 +1298,13 @@ func Run(cfg hx.Config) (*hx.Meta, error) {
 		}
 	})
 
+	// the module histories (modules.go) run beside the crash points
+	modulesDone := make(chan struct{})
+	go func() {
+		defer close(modulesDone)
+		runModules(cfg, col, r)
+	}()
+
 	// crash points, in parallel, one directory per worker slot
 	dirs := make(chan string, 16)
 	for i := 0; i < 16; i++ {
@@ -1260,6 +1326,8 @@ func Run(cfg hx.Config) (*hx.Meta, error) {
 		model := j.model && (len(j.flags) == 0 || srcUnchanged(pkgDir(dir, mode), j.v))
 		col.observeCtx(cfg, fmt.Sprintf("derived.gen.go = first %d bytes of the %s output", j.k, j.which), j.v, cut, true, a, j.s, j.flags, model)
 	})
+
+	<-modulesDone
 
 	runFixed(cfg, col.meta)
 
